@@ -32,6 +32,16 @@ def cases(tier):
              "procname": r.choice(["program", "program", ""]), "sizes": []}
         out.append({"fmt": "b09", "kind": "det", "text": t, "opts": o,
                     "req": "det-b09 " + o["flags"] + f" {o['storage']} " + hexs(o["procname"].encode()) + " " + hexs(t.encode())})
+    # one size map shared by programs that DIM the same string names under different default sizes: half of the
+    # worker processes pass ONE options object to every call (a tool that writes into its caller's options shows)
+    for sizes in ([["A1$", 10]], [["K$", 33], ["B$", 200]], [["A$()", 40]]):
+        for text in ("10 DIM N$, T$(4)\n20 N$=\"X\":T$(1)=\"Y\"", "10 DIM N$, T$(4), B$\n20 B$=N$+T$(2)",
+                     "10 N$=\"A\":Q$(3)=N$", "10 DIM A$(3), K$\n20 A$(1)=K$"):
+            for storage in (80, 32, 255):
+                o = {"flags": "1101110", "storage": storage, "procname": "program", "sizes": sizes}
+                out.append({"fmt": "b09", "kind": "det", "text": text, "opts": o,
+                            "req": "det-b09 " + o["flags"] + f" {storage} " + hexs(b"program") + " "
+                                   + hexs(json.dumps(sizes).encode()) + " " + hexs(text.encode())})
     # every decoder, several images each: decoded twice per process in shuffled order, so state that
     # survives a call (a module-level buffer, a cached table) shows as a different output
     for fmt in sorted(GI.BUILDERS):
@@ -54,7 +64,7 @@ def run(tier):
         order = list(range(len(cs))) * 2
         r.shuffle(order)
         job = json.dumps({"cases": [{k: v for k, v in c.items() if k in ("fmt", "text", "opts", "req")} for c in cs],
-                          "order": order})
+                          "order": order, "share_configs": len(procs) % 2 == 1})
         env = dict(os.environ, PYTHONHASHSEED=str(s), PYTHONPATH=REPO)
         procs.append(subprocess.Popen([PY, os.path.join(HERE, "det_worker.py")], stdin=subprocess.PIPE,
                                       stdout=subprocess.PIPE, stderr=subprocess.DEVNULL, env=env, text=True))
